@@ -10,7 +10,7 @@ Record Prog (s : st) : Prop := {
   (* the promise reaches the resolver: at the latest when the creator leaves charge() *)
   e1 : match cpcf s with
        | CClaim | CGate1 | CGate2 => True
-       | CDtor | CSet | CSub _ _ | CClr => is_late (mode s) = true \/ pavail s = true
+       | CDtor | CSet | CSub _ _ | CClr | CGiveE => is_late (mode s) = true \/ pavail s = true
        | _ => pavail s = true \/ rdone s = true
        end;
   (* every user got its handle before the creator drops its own *)
@@ -153,8 +153,9 @@ Qed.
 
 Lemma prog_init ops : Prog (init ops).
 Proof.
-  unfold init. constructor; unfold nw, rdone, init_cpc, next_give; simp_st;
-    destruct (mode_of ops); cbn; auto; destruct (existsb is_wait0 (flat_map decode_user ops)) eqn:X; cbn; auto.
+  unfold init. constructor; unfold nw, rdone, init_cpc, next_give, next_early; simp_st;
+    destruct (mode_of ops); cbn; auto; try (destruct (existsb is_early (flat_map decode_user ops)); cbn; auto);
+    destruct (existsb is_wait0 (flat_map decode_user ops)) eqn:X; cbn; auto.
 Qed.
 
 Lemma prog_cstep s : Prog s -> Prog (fst (cstep s)).
@@ -185,6 +186,9 @@ Proof.
   - constructor; rewrite C; auto.
   - constructor; unfold nw, rdone; simp_st; auto.
   - constructor; unfold nw, rdone; simp_st; auto.
+  - destruct (give_early (users s)) as [us|] eqn:G.
+    + frames. constructor; unfold nw, rdone, next_early; simp_st; rew_hyps; destruct (existsb is_early us); cbn; auto.
+    + constructor; unfold nw, rdone; simp_st; auto.
 Qed.
 
 Theorem prog_step s i : Prog s -> enabled s i = true -> Prog (fst (tstep s i)).
